@@ -1,6 +1,11 @@
 package main
 
 import (
+	"bytes"
+	"fmt"
+	"time"
+
+	kv "github.com/XiXi-2024/xixi-kv"
 	"verifharness/h"
 )
 
@@ -115,6 +120,42 @@ func statCrashTrace(en *Env, cfg h.Cfg) int {
 	}
 	h.SetIOHandler(nil)
 	if !e.Dead && e.DB != nil {
+		// Stat is one report: called while another goroutine commits a batch of new keys it describes the database
+		// before that commit or after it, not the key count of one and the sizes of the other
+		h.WithoutCapture(func() {
+			db := e.DB
+			type snap struct{ keys, files, live int64 }
+			of := func(st *kv.Stat) snap {
+				return snap{int64(st.KeyNum), int64(st.DataFileNum), st.DiskSize - st.ReclaimableSize}
+			}
+			s0 := of(db.Stat())
+			staged, goOn, committed := make(chan struct{}), make(chan struct{}), make(chan error, 1)
+			go func() {
+				b := db.NewBatch(kv.BatchOptions{})
+				for i := 0; i < 20; i++ {
+					b.Put([]byte(fmt.Sprintf("\x00statsnap-%02d", i)), bytes.Repeat([]byte{byte(i)}, 40))
+				}
+				close(staged)
+				<-goOn
+				committed <- b.Commit()
+			}()
+			<-staged
+			got := make(chan snap, 1)
+			go func() { got <- of(db.Stat()) }()
+			time.Sleep(20 * time.Millisecond) // (Stat is waiting for the batch's lock by now - or not yet: either is a legal schedule)
+			close(goOn)
+			cerr := <-committed
+			var mid snap
+			select {
+			case mid = <-got:
+			case <-h.After(h.CallTimeout):
+				en.T.Emit(h.Ev{"ev": "note", "check": "statsnap", "ok": false, "why": "Stat did not return"})
+				return
+			}
+			s1 := of(db.Stat())
+			en.T.Emit(h.Ev{"ev": "note", "check": "statsnap", "ok": cerr != nil || mid == s0 || mid == s1,
+				"before": []int64{s0.keys, s0.files, s0.live}, "got": []int64{mid.keys, mid.files, mid.live}, "after": []int64{s1.keys, s1.files, s1.live}})
+		})
 		h.WithoutCapture(func() { e.DB.Close() })
 	}
 	for _, img := range imgs {
